@@ -312,6 +312,12 @@ esl_msafile_stockholm_Read(ESL_MSAFILE *afp, ESL_MSA **ret_msa)
 
   msa->alen = pd->alen;
 
+  /* A #=GS line can introduce a sequence name at any point, including after the last alignment block, where the
+   * end-of-block consistency check no longer runs. Every sequence must have received aligned data in every block.
+   */
+  for (idx = 0; idx < msa->nseq; idx++)
+    if (pd->sqlen[idx] != pd->alen) ESL_XFAIL(eslEFORMAT, afp->errmsg, "sequence %s is annotated by #=GS but has no aligned data", msa->sqname[idx]);
+
   /* Stockholm file can set weights. If eslMSA_HASWGTS flag is up, at least one was set: then all must be. */
   if (msa->flags & eslMSA_HASWGTS)
     {
